@@ -131,7 +131,7 @@ int main(int argc, char** argv) {
     Teakra::Verif::yield_hook = &yield_hook;
     const unsigned rounds = (unsigned)ctx.opt_u64("rounds", ctx.thorough ? 400 : 60);
     const u64 progress_cycles = 400000; // bound for "eventually": DSP cycles after the sender stopped
-    const auto wall_watchdog = std::chrono::seconds(60);
+    const auto wall_watchdog = std::chrono::seconds(240);
 
     for (u64 c = 0; c < ctx.cases; ++c) {
         if (!ctx.selected(c))
@@ -198,13 +198,37 @@ int main(int argc, char** argv) {
             }
         });
 
+        // ---- deadlock monitor: if neither thread makes progress for 40 s the process cannot finish by itself
+        std::atomic<u64> host_progress{0};
+        std::atomic<bool> monitor_stop{false};
+        std::thread monitor([&] {
+            u64 lc = 0, lh = 0;
+            auto last = std::chrono::steady_clock::now();
+            while (!monitor_stop.load(std::memory_order_acquire)) {
+                std::this_thread::sleep_for(std::chrono::milliseconds(200));
+                u64 cc = cycles.load(), hh = host_progress.load();
+                auto now = std::chrono::steady_clock::now();
+                if (cc != lc || hh != lh) {
+                    lc = cc;
+                    lh = hh;
+                    last = now;
+                } else if (now - last > std::chrono::seconds(40) && !stop.load()) {
+                    ctx.violation("deadlock:no-thread-progress",
+                                  "neither the host thread nor the DSP thread made progress for 40 s (host blocked in an API call, DSP blocked in Run)", c,
+                                  JObj().unum("dsp_cycles", cc).unum("host_api_calls", hh).done());
+                    ctx.count("cases");
+                    ctx.finish();
+                    std::_Exit(0);
+                }
+            }
+        });
         // ---------------------------------------------------------------- host thread (this one)
         while (!guest_ready.load(std::memory_order_acquire))
             std::this_thread::yield();
         u16 seq[3] = {0, 0, 0};
         std::vector<u16> sent[3];
         bool bad = false;
-        std::string why;
+        std::string why, inconclusive;
         auto wait_until = [&](auto pred, const char* what) {
             auto t0 = std::chrono::steady_clock::now();
             u64 c0 = cycles.load();
@@ -218,9 +242,13 @@ int main(int argc, char** argv) {
                     return false;
                 }
                 if (std::chrono::steady_clock::now() - t0 > wall_watchdog) {
-                    why = fmt("%s: no progress for 60 s (DSP cycles advanced by %" PRIu64 ")", what, cycles.load() - c0);
+                    // the DSP thread is alive (otherwise the deadlock monitor fires) but too slow to reach the cycle
+                    // bound on this machine: no verdict
+                    inconclusive = fmt("%s: cycle bound not reached within the wall-clock watchdog (DSP cycles advanced by %" PRIu64 ")",
+                                       what, cycles.load() - c0);
                     return false;
                 }
+                host_progress.fetch_add(1, std::memory_order_relaxed);
                 std::this_thread::yield();
             }
             return true;
@@ -238,6 +266,8 @@ int main(int argc, char** argv) {
                 ++api_calls;
                 if (!wait_until([&] { return last_reply[ch].load(std::memory_order_acquire) == v; }, fmt("reply to channel %d", ch).c_str())) {
                     bad = true;
+                    if (!inconclusive.empty())
+                        break;
                     if (why.empty())
                         why = "DSP thread ended";
                     ctx.violation(fmt("progress:stop-and-wait:ch%d%s", ch, ch == 1 ? ":polled" : ":interrupt"), why, c,
@@ -253,6 +283,8 @@ int main(int argc, char** argv) {
                 ++api_calls;
                 if (!wait_until([&] { return sem_echo.load(std::memory_order_acquire) != before; }, "semaphore echo")) {
                     bad = true;
+                    if (!inconclusive.empty())
+                        break;
                     if (why.empty())
                         why = "DSP thread ended";
                     ctx.violation("progress:stop-and-wait:semaphore", why, c, JObj().num("round", r).num("bits", bits).done());
@@ -291,6 +323,7 @@ int main(int argc, char** argv) {
                 case 11: std::this_thread::yield(); break;
                 }
                 ++api_calls;
+                host_progress.fetch_add(1, std::memory_order_relaxed);
             }
         }
         // ---- the sender stops: the last value of every channel must be observed within the bound
@@ -309,6 +342,8 @@ int main(int argc, char** argv) {
                 };
                 if (!wait_until(seen_last, fmt("last value of channel %d", ch).c_str())) {
                     bad = true;
+                    if (!inconclusive.empty())
+                        break;
                     ctx.violation(fmt("progress:last-value:ch%d", ch), why.empty() ? "DSP thread ended" : why, c,
                                   JObj().num("last_sent", lastv).num("last_reply", last_reply[ch].load()).done());
                 }
@@ -316,6 +351,14 @@ int main(int argc, char** argv) {
         }
         stop = true;
         dsp.join();
+        if (!inconclusive.empty()) {
+            ctx.note("inconclusive: " + inconclusive);
+            monitor_stop = true;
+            monitor.join();
+            return 3; // no "done" record: the driver reports the run as inconclusive
+        }
+        monitor_stop = true;
+        monitor.join();
         if (dsp_outcome.load() != OK && !bad) {
             bad = true;
             ctx.violation(fmt("dsp-thread:%s", outcome_name(dsp_outcome.load())), "Run() ended with " + dsp_what, c);
